@@ -380,6 +380,9 @@ func main() {
 	for k, v := range extra {
 		cov[k] = v
 	}
+	if assumptions == nil {
+		assumptions = []string{}
+	}
 	ev := map[string]any{
 		"property_id": id,
 		"tier":        tier,
